@@ -175,6 +175,7 @@ def random_case(rng, tier):
 
 
 def classify(case, res):
-    if case.get("hazard") and any(t in res["tags"] for t in ("final-differs", "hazard-confirmed")) or (case.get("hazard") and any(t.startswith("obs-differs") for t in res["tags"])):
+    # class B programs (a write hits a buffer that an unmaterialised selection may still share): any divergence from the model is F10's
+    if case.get("hazard") and any(t in ("final-differs", "raised", "hazard-confirmed") or t.startswith("obs-differs") for t in res["tags"]):
         return "F10"
     return None
